@@ -338,6 +338,41 @@ func (r *c18run) finish(op, res string) {
 	d, full := r.dump()
 	r.c.Op(op, res+" ; "+d)
 	r.checkHandOut(full, 0, false, "a full GetTxs after `"+op+"`")
+	r.checkIndex("after `" + op + "`")
+}
+
+// checkIndex: the hash index and the slots describe the same set.
+//   - every index entry points at a live slot whose tx owns that hash (no stale entry);
+//   - nothing pending <=> IsEmpty() (the miner's waitCanPackageTx and gc both rely on it).
+func (r *c18run) checkIndex(what string) {
+	slots, index, _ := r.pool.VerifState()
+	live := 0
+	for _, tx := range slots {
+		if tx != nil {
+			live++
+		}
+	}
+	for h, i := range index {
+		k := "?"
+		if t, ok := r.g.byHash[h]; ok {
+			k = fmt.Sprint(t.label)
+		}
+		if i < 0 || i >= len(slots) {
+			r.fail("c18/stale-index/entry-out-of-range", fmt.Sprintf("%s the index maps hash %s to slot %d of %d", what, k, i, len(slots)))
+			continue
+		}
+		if slots[i] == nil {
+			r.c.Count("nontrivial:stale-index-entry")
+			r.fail("c18/stale-index/entry-points-at-cleared-slot", fmt.Sprintf("%s the index still maps hash %s to slot %d, which was cleared: AddTx of that tx is refused (ErrTxIsExist) although it is not pending, IsEmpty() stays false and gc never reclaims the slots", what, k, i))
+		}
+	}
+	empty := r.pool.IsEmpty()
+	if live == 0 && !empty {
+		r.fail("c18/stale-index/not-empty-with-nothing-pending", fmt.Sprintf("%s no transaction is pending (%d slots, all cleared) but IsEmpty() is false (%d index entries): the miner stops waiting for transactions and gc never fires", what, len(slots), len(index)))
+	}
+	if live > 0 && empty {
+		r.fail("c18/lost", fmt.Sprintf("%s IsEmpty() is true although %d transactions are pending", what, live))
+	}
 }
 
 func (r *c18run) opAdd(t *ltx) {
@@ -364,6 +399,22 @@ func (r *c18run) opAdd(t *ltx) {
 		r.accepted(t)
 		if len(t.subs) > 0 {
 			r.c.Count("add:ok:box")
+		}
+	}
+	if res == "err ErrTxIsExist" && t != nil {
+		// set semantics: a tx is refused only if a PENDING tx shares one of its hashes
+		_, pending := r.dump()
+		conflict := false
+		for _, p := range pending {
+			if overlap(p, t) {
+				conflict = true
+			}
+		}
+		if conflict {
+			r.c.Count("add:refused:conflicts-with-pending")
+		} else {
+			r.c.Count("nontrivial:add-refused-without-pending-conflict")
+			r.fail("c18/stale-index/add-refused", fmt.Sprintf("AddTx(%s) returns ErrTxIsExist although no pending transaction shares a hash with it (pending: %v)", t.spec(), labelsOf(pending)))
 		}
 	}
 	r.finish(op, res)
@@ -488,11 +539,7 @@ func (r *c18run) opGet(time uint32, size int) {
 func (r *c18run) opEmpty() {
 	res := Safe(func() string { return fmt.Sprint(r.pool.IsEmpty()) })
 	r.c.Count("empty:" + res)
-	_, full := r.dump()
-	if res == "true" && len(full) > 0 {
-		r.fail("c18/lost", "IsEmpty() is true although the pool still hands out transactions (the miner skips block production)")
-	}
-	r.finish("empty", res)
+	r.finish("empty", res) // both directions of "IsEmpty <=> nothing pending" are checked in checkIndex after every op
 }
 
 // ---------------------------------------------------------------- universes
@@ -786,18 +833,29 @@ func (g *c18gen) episodeFork() {
 			if onNew(t) || in1[t.label] {
 				continue
 			}
+			// legitimate: a transaction that was pending before the switch (and is not the tx itself)
+			// already owns one of its hashes -- the set keeps the older of two conflicting txs
 			blocked := false
-			if !in0[t.label] {
-				for _, k := range t.keys() {
-					for h := range indexBefore {
-						if x, ok := r.g.byHash[h]; ok && x.label == k {
-							blocked = true // a pending tx (or a stale index entry) already claims one of its hashes
-						}
-					}
+			for _, p0 := range f0 {
+				if p0.label != t.label && overlap(p0, t) {
+					blocked = true
 				}
 			}
 			if blocked {
-				r.c.Count("fork:old-tx-blocked-by-pending-or-stale")
+				r.c.Count("fork:old-tx-blocked-by-pending-conflict")
+				continue
+			}
+			stale := false
+			for _, k := range t.keys() {
+				for h := range indexBefore {
+					if x, ok := r.g.byHash[h]; ok && x.label == k {
+						stale = true
+					}
+				}
+			}
+			if stale {
+				r.c.Count("nontrivial:fork-old-tx-blocked-by-stale-index-entry")
+				r.fail("c18/stale-index/fork-old-tx-missing", fmt.Sprintf("after `%s` the pool does not contain %s from the abandoned fork: a stale index entry (pointing at a cleared slot) made AddTxs refuse it", op, t.spec()))
 				continue
 			}
 			r.fail("c18/fork-old-tx-missing", fmt.Sprintf("after `%s` the pool does not contain %s from the abandoned fork", op, t.spec()))
@@ -1253,6 +1311,24 @@ func c18(c *Ctx) {
 		r.opAdd(cc)
 		r.opDel([]*ltx{cc})
 		r.opGet(0, 100)
+	}
+	// directed: stale index entries after deleting a sub tx of a pooled box (review H1/H2)
+	{
+		r := newC18run(g, "witness-stale")
+		s1, s2 := g.plain(1000), g.plain(1000)
+		bx := g.box(1000, []*ltx{s1, s2}, 0)
+		r.opDel([]*ltx{bx})
+		r.opAdds([]*ltx{bx})
+		r.opDel([]*ltx{s2})
+		r.opEmpty()
+		r.opAdd(s1)
+		r.opGet(0, 10)
+		// slots are reclaimed once nothing is pending
+		for i := 0; i < 5; i++ {
+			x := g.plain(1000)
+			r.opAdd(x)
+			r.opDel([]*ltx{x})
+		}
 	}
 	bulk := 3
 	if c.Tier == "thorough" {
